@@ -93,6 +93,19 @@ pub fn gen_case(rng: &mut Rng, idx: usize, thorough: bool) -> Value {
             };
             json!({"json_schema": sch})
         }
+        3 if idx % 10 == 3 => {
+            // an optional property (or an anyOf branch) whose string schema has no instance — a pattern or format that
+            // cannot meet the length bounds: the schema as a whole stays satisfiable, so no state may dead-end
+            let dead = [json!({"type":"string","pattern":"^(ab)+$","maxLength":1}), json!({"type":"string","pattern":"^[0-9]{5}$","minLength":6}),
+                        json!({"type":"string","format":"date","maxLength":8}), json!({"type":"string","pattern":"^[a-c]{4}$","maxLength":3}),
+                        json!({"type":"string","format":"uuid","minLength":40})][rng.below(5)].clone();
+            let sch = match rng.below(3) {
+                0 => json!({"type":"object","properties":{"a":{"type":"boolean"},"tag":dead},"additionalProperties":false}),
+                1 => json!({"anyOf":[dead, {"type":"integer","minimum":0,"maximum":9}]}),
+                _ => json!({"type":"object","properties":{"tag":dead,"n":{"type":"integer"}},"required":["n"],"additionalProperties":false}),
+            };
+            json!({"json_schema": sch})
+        }
         3 => json!({"json_schema": gen_json(rng, 0)}),
         _ => { let r = crate::rx::gen_rx(rng, 3); json!({"regex": r.to_regex()}) }
     };
@@ -117,6 +130,21 @@ fn complete(w: &World, m: &mut Matcher, depth: usize, budget: &mut usize) -> Res
     let Ok(mask) = mm.compute_mask() else { return Res::Unknown };
     let mut cand: Vec<u32> = mask.to_list().into_iter().filter(|t| *t != w.eos && !w.is_special(*t)).collect();
     if cand.is_empty() { return Res::Exhausted; }
+    // only whitespace is allowed, and stays the only thing allowed after eight more whitespace tokens: the state can
+    // never make progress (skippable whitespace does not change what may follow; no generated grammar asks for
+    // eight whitespace tokens in a row)
+    let ws_only = |c: &[u32]| c.iter().all(|t| { let wd = &w.words[*t as usize]; !wd.is_empty() && wd.iter().all(|b| matches!(b, 0x20 | 0x09 | 0x0a | 0x0d)) });
+    if ws_only(&cand) {
+        let mut probe = m.deep_clone();
+        let mut stuck = true;
+        for _ in 0..8 {
+            let Ok(mk) = probe.compute_mask() else { stuck = false; break };
+            let c2: Vec<u32> = mk.to_list().into_iter().filter(|t| *t != w.eos && !w.is_special(*t)).collect();
+            if c2.is_empty() || !ws_only(&c2) || probe.is_accepting().unwrap_or(false) { stuck = c2.is_empty(); break; }
+            if probe.consume_token(c2[0]).is_err() { stuck = false; break; }
+        }
+        if stuck && !probe.is_accepting().unwrap_or(false) { return Res::Exhausted; }
+    }
     if depth == 0 || *budget == 0 { return Res::Unknown; }
     cand.sort_by_key(|t| priority(&w.words, *t));
     // a diverse selection: a few tokens of every priority class (so that '@', '.', '-', 'T' ... are tried
